@@ -3,6 +3,12 @@
 -/
 import Proofs.Strip
 import Proofs.Stable
+import Proofs.C04_Chains
+import Proofs.C01_NoSep
+import Proofs.C14_Collapse
+import Proofs.C14_Para
+import Proofs.C14_Table
+import Proofs.C14_Doc
 namespace Mammoth
 
 /-- `strip_empty` removes exactly the nodes without content (recursively): a node survives iff it
@@ -38,5 +44,471 @@ private def brT : Tag := { name := S!"br" }
 example : stripEmpty [.elem pT [.elem pT [.text []]], .elem pT [.elem brT []], .elem brT [.text []]]
     = [.elem pT [.elem brT []]] := by rfl
 example : hasContent (.elem pT [.elem pT [.text []]]) = false := by rfl
+
+/-- CHAINS ARE KEPT.  `leaves` lists the text nodes and force-write markers of a forest in order, each with the
+    tags of its enclosing elements (outermost first).  Stripping keeps exactly the leaves with content
+    (`leafKept`: non-empty text, force-write marker), in order, each under EXACTLY its own chain of tags:
+    no contentful leaf is dropped or moved, no tag above it is removed or changed, and only empty text leaves
+    disappear — for every forest. -/
+theorem C14_chains_kept (ns : List Node) : leaves (stripEmpty ns) = (leaves ns).filter leafKept :=
+  leaves_stripEmpty ns
+
+/-- …and stripping followed by merging (what `render` writes): the contentful leaves of `ns`, in order and
+    unchanged, with separator leaves inserted; each chain keeps its length and changes position by position
+    by merge steps only (identical attributes; name linked through `|` alternatives, see
+    `C04_never_joins_different`) -/
+theorem C14_chains_rendered (ns : List Node) :
+    LeafEmb TagReach (SepIn ns) ((leaves ns).filter leafKept) (leaves (collapse (stripEmpty ns))) := by
+  rw [← C14_chains_kept]
+  exact leaves_collapse_reach ns (stripEmpty ns)
+    (by rw [C14_strip_is_prune]; exact allTagsL_prune ns (allTagsL_tagsOfL ns))
+
+/-! non-vacuity -/
+example : leaves [.elem pT [.text [], .elem brT [], .elem pT [.text S!"a"]], .elem pT [.text []], .forceWrite]
+    = [([pT], .text []), ([pT, pT], .text S!"a"), ([pT], .text []), ([], .forceWrite)] := by rfl
+example : leaves (stripEmpty
+      [.elem pT [.text [], .elem brT [], .elem pT [.text S!"a"]], .elem pT [.text []], .forceWrite])
+    = [([pT, pT], .text S!"a"), ([], .forceWrite)] := by rfl
+/-! ## C14 through `collapse` (the rendered forest is `collapse (stripEmpty nodes)`) -/
+
+/-- No empty element in the rendered forest: after `strip_empty` and `collapse`, every element at every
+    depth is a childless void element or has a child with content (merging only appends children to an
+    element that is kept, separators are non-empty text).  All forests. -/
+theorem C14_rendered_no_empty_element (ns : List Node) :
+    allContentL (collapse (stripEmpty ns)) = true :=
+  allContentL_collapse _ (C14_no_empty_element ns)
+
+/-- `collapse` alone never creates an empty element in a forest that has none. -/
+theorem C14_collapse_no_empty_element (ns : List Node) (h : allContentL ns = true) :
+    allContentL (collapse ns) = true := allContentL_collapse ns h
+
+/-- The rendered forest is empty exactly when the input forest has no content at all. -/
+theorem C14_rendered_empty_iff (ns : List Node) :
+    collapse (stripEmpty ns) = [] ↔ anyContent ns = false := by
+  rw [collapse_eq_nil_iff]
+  have h := stripList_isEmpty ns
+  constructor
+  · intro h0; simp only [stripEmpty] at h0; rw [h0] at h; simpa using h
+  · intro ha; rw [ha] at h; exact List.isEmpty_iff.mp (by simpa [stripEmpty] using h)
+
+/-- Neither `strip_empty` nor `collapse` loses (or duplicates) a force-write marker: the rendered forest
+    contains as many as the input forest.  All forests. -/
+theorem C14_rendered_force_writes_kept (ns : List Node) :
+    fwCountL (collapse (stripEmpty ns)) = fwCountL ns := by
+  rw [fwCount_collapse, stripEmpty, stripList_eq, fwCount_prune]
+
+/-- All text survives rendering, provided no tag carries a separator (a separator *adds* text). -/
+theorem C14_rendered_text_kept (ns : List Node) (h : noSepL ns = true) :
+    textOfL (collapse (stripEmpty ns)) = textOfL ns := by
+  have h' : noSepL (stripEmpty ns) = true := c01_noSepL_stripList ns h
+  rw [text_collapse _ h', text_stripEmpty]
+
+/-! non-vacuity, and a CAVEAT -/
+private def pC : Tag := { name := S!"p", collapsible := true, separator := some S!"\n" }
+private def brC : Tag := { name := S!"br", collapsible := true }
+example : allContentL [.elem pC [.text S!"a"], .elem pC [.text S!"b"]] = true := by decide
+example : collapse (stripEmpty [.elem pC [.text S!"a"], .elem pT [.text []], .elem pC [.text S!"b"]])
+    = [.elem pC [.text S!"a", .text S!"\n", .text S!"b"]] := by rfl
+example : noSepL [.elem pT [.text S!"a"], .elem brT []] = true := by decide
+/-- CAVEAT: a void element is content for `strip_empty`, but `collapse` merges two adjacent *non-fresh*
+    void elements with the same tag into one — so "nothing contentful is removed" holds for text and
+    force-write markers (theorems above), not for the number of void elements: with the style mapping
+    `br[type='line'] => br` two consecutive line breaks are rendered as a single `<br />` (the library
+    does the same: `<p>a<br />b</p>`; with `br:fresh`, or without a mapping, both are written). -/
+example : collapse (stripEmpty [.elem brC [], .elem brC []]) = [.elem brC []] := by rfl
+example : collapse (stripEmpty [.elem brT [], .elem brT []]) = [.elem brT [], .elem brT []] := by rfl
+
+/-! ## The converter: which elements are written
+
+  `c14_weight cfg e` (Proofs/C14_Weight.lean) is the specification, by recursion on the *document*
+  element: `none` — nothing is emitted; `hollow` — something is emitted that `strip_empty` removes
+  completely; `full` — something survives.  Text is `full` iff non-empty; tab, note reference, checkbox,
+  bookmark, row, cell are `full`; a table, a comment reference, a break, an image are `full` or `none`
+  depending on the style map / the readability of the image; a hyperlink is `full` iff something inside
+  is, else `hollow`; a run passes the weight of its children through its paths; a paragraph likewise
+  under the default setting and is `full` under `ignore_empty_paragraphs=False` (unless mapped to `!`). -/
+
+/-- Whatever a successful visit of ANY document element returns has the specified weight. -/
+theorem C14_visit_weight (cfg : Cfg) (hdr : Bool) (e : Elem) (st st' : ConvState) (nodes : List Node)
+    (h : visit cfg hdr e st = .ok (nodes, st')) : weightOf nodes = c14_weight cfg e :=
+  c14_weight_visit cfg hdr e st nodes st' h
+
+/-- … hence `strip_empty` removes the nodes of an element completely iff its weight is not `full`
+    (any element, any configuration, any converter state). -/
+theorem C14_dropped_iff (cfg : Cfg) (hdr : Bool) (e : Elem) (st st' : ConvState) (nodes : List Node)
+    (h : visit cfg hdr e st = .ok (nodes, st')) :
+    (stripEmpty nodes).isEmpty = !(c14_weight cfg e).isFull :=
+  c14_dropped_iff cfg hdr e st st' nodes h
+
+/-- the same for a sequence of elements (the children of a paragraph, run, cell, …) -/
+theorem C14_dropped_iff_all (cfg : Cfg) (hdr : Bool) (es : List Elem) (st st' : ConvState)
+    (nodes : List Node) (h : visitAll cfg hdr es st = .ok (nodes, st')) :
+    (stripEmpty nodes).isEmpty = !(c14_weightL cfg es).isFull :=
+  c14_dropped_iff_all cfg hdr es st st' nodes h
+
+/-! examples: a bold, italic run with only empty text inside a hyperlink inside a paragraph vanishes with
+    all its ancestors; a bookmark, a tab or a line break next to it keeps them -/
+private def c14_emptyRun : Elem := .run { bold := true, italic := true } [.text []]
+example : ∃ st', visit {} false (.paragraph {} [.hyperlink { href := some S!"x" } [c14_emptyRun]]) {} =
+    .ok ([.elem (pathElem S!"p" true) [cel S!"a" [(S!"href", S!"x")]
+      [.elem (pathElem S!"strong" false) [.elem (pathElem S!"em" false) [.text []]]]]], st') := ⟨_, rfl⟩
+example : c14_weight {} (.paragraph {} [.hyperlink { href := some S!"x" } [c14_emptyRun]]) = .hollow := by
+  decide
+example : c14_weight {} (.paragraph {} [.hyperlink {} [c14_emptyRun, .bookmark (some S!"b")]]) = .full := by
+  decide
+example : c14_weight {} (.paragraph {} [.run {} [.brk S!"line"]]) = .full := by decide
+example : c14_weight {} (.paragraph {} [.run {} [.brk S!"page"]]) = .hollow := by decide
+
+/-! ### force-write sites and void elements -/
+
+/-- A bookmark always yields exactly one `a` element carrying its (prefixed) id whose only child is the
+    force-write marker, and `strip_empty` keeps it unchanged.  All configurations and states. -/
+theorem C14_bookmark_kept (cfg : Cfg) (hdr : Bool) (name : Option Str) (st : ConvState) :
+    ∃ nodes, visit cfg hdr (.bookmark name) st = .ok (nodes, st) ∧
+      nodes = [.elem { name := S!"a", attrs := [(S!"id", cfg.idPrefix ++ pyOpt name)], collapsible := true }
+                [.forceWrite]] ∧
+      stripEmpty nodes = nodes :=
+  c14_bookmark_stripped cfg hdr name st
+
+/-- A row is always written: `strip_empty` of its nodes is one `tr` with the marker and the stripped
+    nodes of its cells. -/
+theorem C14_row_kept (cfg : Cfg) (hdr hh : Bool) (cells : List Elem) (st st' : ConvState)
+    (nodes : List Node) (h : visit cfg hdr (.row hh cells) st = .ok (nodes, st')) :
+    ∃ ns, visitAll cfg hdr cells st = .ok (ns, st') ∧
+      stripEmpty nodes = [el S!"tr" [] (.forceWrite :: stripEmpty ns)] :=
+  c14_row_stripped cfg hdr hh cells st st' nodes h
+
+/-- A cell is always written: one `th`/`td` with the marker and the stripped nodes of its content. -/
+theorem C14_cell_kept (cfg : Cfg) (hdr : Bool) (c r : Nat) (vm : Bool) (cs : List Elem)
+    (st st' : ConvState) (nodes : List Node) (h : visit cfg hdr (.cell c r vm cs) st = .ok (nodes, st')) :
+    ∃ ns, visitAll cfg hdr cs st = .ok (ns, st') ∧
+      stripEmpty nodes =
+        [el (if hdr then S!"th" else S!"td") (cellAttrs c r) (.forceWrite :: stripEmpty ns)] :=
+  c14_cell_stripped cfg hdr c r vm cs st st' nodes h
+
+/-- Table structure survives `strip_empty`.  For a table (children: rows of cells) not mapped to `!`
+    whose conversion succeeds, the stripped nodes are the whole table path around: the force-write marker,
+    then the `tr`s (no leading header row), or `thead` with the `tr`s of the leading header rows followed —
+    only if there is a non-header row — by `tbody` with the other `tr`s; one `tr` per row, one `th`/`td`
+    per cell, in order (`c09_rowRel`, `c09_cellRel`), whether or not anything has content. -/
+theorem C14_table_structure_kept (cfg : Cfg) (hdr : Bool) (sid sname : Option Str) (rows : List Elem)
+    (es : List Tag) (s s' : ConvState) (nodes : List Node)
+    (hrows : rows.all (fun r => isRow r && (rowCells r).all isCell) = true)
+    (hpath : c01_path cfg (.table sid sname) (.elements [pathElem S!"table" true]) = .elements es)
+    (hrun : visit cfg hdr (.table sid sname rows) s = .ok (nodes, s')) :
+    ∃ headNs bodyNs,
+      stripEmpty nodes = wrapElems es (.forceWrite ::
+        (if bodyIndex rows = 0 then bodyNs
+         else el S!"thead" [] headNs ::
+           (if (rows.drop (bodyIndex rows)).isEmpty then [] else [el S!"tbody" [] bodyNs]))) ∧
+      c09_Forall2 (c09_rowRel true) (rows.take (bodyIndex rows)) headNs ∧
+      c09_Forall2 (c09_rowRel false) (rows.drop (bodyIndex rows)) bodyNs :=
+  c14_table_structure_kept cfg hdr sid sname rows es s s' nodes hrows hpath hrun
+
+example : ∃ st', visit {} false (.row false [.cell 1 1 false []]) {} =
+    .ok ([el S!"tr" [] [.forceWrite, el S!"td" [] [.forceWrite]]], st') := ⟨_, rfl⟩
+example : ∃ st', visit {} true (.cell 2 1 false [.paragraph {} []]) {} =
+    .ok ([el S!"th" [(S!"colspan", S!"2")] [.forceWrite, .elem (pathElem S!"p" true) []]], st') := ⟨_, rfl⟩
+example : ((visit {} true (.cell 2 1 false [.paragraph {} []]) {}).toOption.map fun r => stripEmpty r.1) =
+    some [el S!"th" [(S!"colspan", S!"2")] [.forceWrite]] := by rfl
+
+private def c14_tbl : List Elem := [.row true [.cell 1 1 false []], .row false [.cell 1 1 false [], .cell 2 1 false []]]
+example : c14_tbl.all (fun r => isRow r && (rowCells r).all isCell) = true := by decide
+example : c01_path {} (.table none none) (.elements [pathElem S!"table" true])
+    = .elements [pathElem S!"table" true] := by rfl
+example : ∃ st', visit {} false (.table none none c14_tbl) {} = .ok ([el S!"table" [] [.forceWrite,
+    el S!"thead" [] [el S!"tr" [] [.forceWrite, el S!"th" [] [.forceWrite]]],
+    el S!"tbody" [] [el S!"tr" [] [.forceWrite, el S!"td" [] [.forceWrite],
+      el S!"td" [(S!"colspan", S!"2")] [.forceWrite]]]]], st') := ⟨_, rfl⟩
+/-- a table of header rows only: the empty `tbody` is the one thing that goes (library: the same,
+    `<table><thead><tr><th></th></tr></thead></table>`) -/
+example : ((visit {} false (.table none none [.row true [.cell 1 1 false []]]) {}).toOption.map
+      fun r => stripEmpty r.1) =
+    some [el S!"table" [] [.forceWrite, el S!"thead" [] [el S!"tr" [] [.forceWrite, el S!"th" [] [.forceWrite]]]]] := by
+  rfl
+
+/-- A checkbox yields one void `input` element, kept unchanged. -/
+theorem C14_checkbox_kept (cfg : Cfg) (hdr : Bool) (c : Bool) (st : ConvState) :
+    ∃ nodes, visit cfg hdr (.checkbox c) st = .ok (nodes, st) ∧
+      nodes = [el S!"input" ([(S!"type", S!"checkbox")] ++ (if c then [(S!"checked", S!"checked")] else [])) []] ∧
+      stripEmpty nodes = nodes :=
+  c14_checkbox_stripped cfg hdr c st
+
+/-- A line break without a `br` mapping yields one fresh void `br`, kept unchanged. -/
+theorem C14_line_break_kept (cfg : Cfg) (hdr : Bool) (st : ConvState)
+    (hf : findPath cfg (.brk S!"line") = none) :
+    visit cfg hdr (.brk S!"line") st = .ok ([.elem (pathElem S!"br" true) []], st) ∧
+    stripEmpty [.elem (pathElem S!"br" true) []] = [.elem (pathElem S!"br" true) []] :=
+  c14_line_break_stripped cfg hdr st hf
+example : findPath {} (.brk S!"line") = none := by rfl
+
+/-- A break mapped to a path yields that path around nothing; it is written iff the innermost element of
+    the path is void (`br[type='page'] => hr` works, `br[type='page'] => div.page` writes nothing — the
+    library agrees on both). -/
+theorem C14_mapped_break (cfg : Cfg) (hdr : Bool) (ty : Str) (es : List Tag) (st : ConvState)
+    (hf : findPath cfg (.brk ty) = some (.elements es)) :
+    visit cfg hdr (.brk ty) st = .ok (wrapElems es [], st) ∧
+    stripEmpty (wrapElems es []) = if endsVoid es = true then wrapElems es [] else [] :=
+  c14_mapped_break_stripped cfg hdr ty es st hf
+private def c14_cfgBrk : Cfg := { styleMap := [{ matcher := .brk S!"page", path := .elements [pathElem S!"hr" false] },
+  { matcher := .brk S!"column", path := .elements [{ name := S!"div", attrs := [(S!"class", S!"c")], collapsible := true }] }] }
+example : findPath c14_cfgBrk (.brk S!"page") = some (.elements [pathElem S!"hr" false]) := by rfl
+example : endsVoid [pathElem S!"hr" false] = true := by decide
+example : c14_weight c14_cfgBrk (.brk S!"page") = .full ∧ c14_weight c14_cfgBrk (.brk S!"column") = .hollow := by
+  decide
+
+/-- An image yields nothing (unreadable linked image: a warning) or exactly one `img`
+    (`c14_imageShown`), and `strip_empty` keeps whatever it yields. -/
+theorem C14_image_kept (cfg : Cfg) (hdr : Bool) (i : ImageProps) (st st' : ConvState) (nodes : List Node)
+    (h : visit cfg hdr (.image i) st = .ok (nodes, st')) :
+    stripEmpty nodes = nodes ∧ nodes.length = if c14_imageShown cfg i then 1 else 0 :=
+  c14_image_stripped cfg hdr i st st' nodes h
+private def c14_cfgImg : Cfg := { archive := [(S!"word/media/i.png", [1, 2])] }
+set_option maxRecDepth 4000 in
+example : ∃ st', visit c14_cfgImg false (.image { src := .embedded S!"word/media/i.png", contentType := some S!"image/png" }) {} =
+    .ok ([el S!"img" [(S!"src", S!"data:image/png;base64,AQI=")] []], st') := ⟨_, rfl⟩
+example : ∃ st', visit c14_cfgImg false (.image { src := .linked S!"x.png" }) {} = .ok ([], st') := ⟨_, rfl⟩
+
+/-! ### paragraphs -/
+
+/-- The stripped nodes of a paragraph not mapped to `!` (path `es`: the first matching mapping, or the
+    fresh `p`), in terms of the nodes `content` of its children.  Default setting: the whole path around
+    the stripped content if the content has content (or there is no content at all and the innermost
+    element of the path is void), otherwise nothing.  `ignore_empty_paragraphs=False`: always the whole
+    path around the marker and the stripped content. -/
+theorem C14_paragraph_stripped (cfg : Cfg) (hdr : Bool) (p : ParaProps) (cs : List Elem) (es : List Tag)
+    (st st' : ConvState) (nodes : List Node)
+    (hp : c01_path cfg (.paragraph p) (.elements [pathElem S!"p" true]) = .elements es)
+    (h : visit cfg hdr (.paragraph p cs) st = .ok (nodes, st')) :
+    ∃ content,
+      visitAll cfg hdr cs (c01_warnState cfg (.paragraph p) S!"paragraph" p.styleId p.styleName st)
+        = .ok (content, st') ∧
+      stripEmpty nodes =
+        if cfg.ignoreEmpty then
+          (if (anyContent content || (content.isEmpty && endsVoid es)) = true
+           then wrapElems es (stripEmpty content) else [])
+        else wrapElems es (.forceWrite :: stripEmpty content) :=
+  c14_paragraph_stripped cfg hdr p cs es st st' nodes hp h
+
+/-- With `ignore_empty_paragraphs=False` every paragraph that no `!` mapping drops — empty or not —
+    yields its whole path (before `collapse`): `strip_empty` leaves `es` wrapped around the marker and the
+    stripped content of the children. -/
+theorem C14_keep_all_paragraphs (cfg : Cfg) (hdr : Bool) (p : ParaProps) (cs : List Elem) (es : List Tag)
+    (st st' : ConvState) (nodes : List Node) (hi : cfg.ignoreEmpty = false)
+    (hp : c01_path cfg (.paragraph p) (.elements [pathElem S!"p" true]) = .elements es)
+    (h : visit cfg hdr (.paragraph p cs) st = .ok (nodes, st')) :
+    ∃ content,
+      visitAll cfg hdr cs (c01_warnState cfg (.paragraph p) S!"paragraph" p.styleId p.styleName st)
+        = .ok (content, st') ∧
+      stripEmpty nodes = wrapElems es (.forceWrite :: stripEmpty content) :=
+  c14_keep_all_paragraphs cfg hdr p cs es st st' nodes hi hp h
+
+/-- … in particular, for a non-empty path `t :: ts`, the stripped nodes are exactly one element, with the
+    block tag `t`. -/
+theorem C14_keep_all_paragraphs_block (cfg : Cfg) (hdr : Bool) (p : ParaProps) (cs : List Elem)
+    (t : Tag) (ts : List Tag) (st st' : ConvState) (nodes : List Node) (hi : cfg.ignoreEmpty = false)
+    (hp : c01_path cfg (.paragraph p) (.elements [pathElem S!"p" true]) = .elements (t :: ts))
+    (h : visit cfg hdr (.paragraph p cs) st = .ok (nodes, st')) :
+    ∃ kids, stripEmpty nodes = [.elem t kids] :=
+  c14_keep_all_paragraphs_head cfg hdr p cs t ts st st' nodes hi hp h
+
+/-- Default setting: a paragraph whose children leave nothing with content disappears with its whole
+    path — except when the children yield no node at all and the innermost element of the path is void
+    (`p[style-name='S'] => hr` turns an empty paragraph into `<hr />`; the library does the same). -/
+theorem C14_empty_paragraph_dropped (cfg : Cfg) (hdr : Bool) (p : ParaProps) (cs : List Elem) (es : List Tag)
+    (st st' : ConvState) (nodes content : List Node) (hi : cfg.ignoreEmpty = true)
+    (hp : c01_path cfg (.paragraph p) (.elements [pathElem S!"p" true]) = .elements es)
+    (h : visit cfg hdr (.paragraph p cs) st = .ok (nodes, st'))
+    (hc : visitAll cfg hdr cs (c01_warnState cfg (.paragraph p) S!"paragraph" p.styleId p.styleName st)
+        = .ok (content, st'))
+    (hempty : anyContent content = false) (hvoid : (content.isEmpty && endsVoid es) = false) :
+    stripEmpty nodes = [] :=
+  c14_empty_paragraph_dropped cfg hdr p cs es st st' nodes content hi hp h hc hempty hvoid
+
+/-- Both settings: a paragraph with content below is written with its whole path around the stripped
+    content (preceded by the marker under `ignore_empty_paragraphs=False`). -/
+theorem C14_contentful_paragraph_kept (cfg : Cfg) (hdr : Bool) (p : ParaProps) (cs : List Elem)
+    (es : List Tag) (st st' : ConvState) (nodes content : List Node)
+    (hp : c01_path cfg (.paragraph p) (.elements [pathElem S!"p" true]) = .elements es)
+    (h : visit cfg hdr (.paragraph p cs) st = .ok (nodes, st'))
+    (hc : visitAll cfg hdr cs (c01_warnState cfg (.paragraph p) S!"paragraph" p.styleId p.styleName st)
+        = .ok (content, st'))
+    (hfull : anyContent content = true) :
+    stripEmpty nodes =
+      wrapElems es ((if cfg.ignoreEmpty then [] else [.forceWrite]) ++ stripEmpty content) :=
+  c14_contentful_paragraph_kept cfg hdr p cs es st st' nodes content hp h hc hfull
+
+/-! examples -/
+private def c14_cfgKeep : Cfg := {
+  styleMap := [{ matcher := .paragraph (some S!"Q") none none,
+                 path := .elements [pathElem S!"blockquote" false, pathElem S!"p" true] }],
+  ignoreEmpty := false }
+private def c14_cfgDrop : Cfg := { c14_cfgKeep with ignoreEmpty := true }
+private def c14_q : ParaProps := { styleId := some S!"Q" }
+example : c14_cfgKeep.ignoreEmpty = false := by rfl
+example : c01_path c14_cfgKeep (.paragraph c14_q) (.elements [pathElem S!"p" true])
+    = .elements [pathElem S!"blockquote" false, pathElem S!"p" true] := by rfl
+example : ∃ st', visit c14_cfgKeep false (.paragraph c14_q [c14_emptyRun]) {} =
+    .ok ([.elem (pathElem S!"blockquote" false) [.elem (pathElem S!"p" true) [.forceWrite,
+      .elem (pathElem S!"strong" false) [.elem (pathElem S!"em" false) [.text []]]]]], st') := ⟨_, rfl⟩
+example : ((visit c14_cfgKeep false (.paragraph c14_q [c14_emptyRun]) {}).toOption.map fun r => stripEmpty r.1) =
+    some [.elem (pathElem S!"blockquote" false) [.elem (pathElem S!"p" true) [.forceWrite]]] := by rfl
+example : c14_cfgDrop.ignoreEmpty = true := by rfl
+example : c01_path c14_cfgDrop (.paragraph c14_q) (.elements [pathElem S!"p" true])
+    = .elements [pathElem S!"blockquote" false, pathElem S!"p" true] := by rfl
+example : ∃ st', visit c14_cfgDrop false (.paragraph c14_q [c14_emptyRun]) {} =
+    .ok ([.elem (pathElem S!"blockquote" false) [.elem (pathElem S!"p" true)
+      [.elem (pathElem S!"strong" false) [.elem (pathElem S!"em" false) [.text []]]]]], st') := ⟨_, rfl⟩
+example : ∃ st', visitAll c14_cfgDrop false [c14_emptyRun]
+      (c01_warnState c14_cfgDrop (.paragraph c14_q) S!"paragraph" c14_q.styleId c14_q.styleName {}) =
+    .ok ([.elem (pathElem S!"strong" false) [.elem (pathElem S!"em" false) [.text []]]], st') := ⟨_, rfl⟩
+example : anyContent [.elem (pathElem S!"strong" false) [.elem (pathElem S!"em" false) [.text []]]] = false := by
+  decide
+example : ([Node.elem (pathElem S!"strong" false) [.elem (pathElem S!"em" false) [.text []]]].isEmpty
+    && endsVoid [pathElem S!"blockquote" false, pathElem S!"p" true]) = false := by decide
+example : ((visit c14_cfgDrop false (.paragraph c14_q [c14_emptyRun]) {}).toOption.map fun r => stripEmpty r.1) =
+    some [] := by rfl
+example : ∃ st', visitAll c14_cfgDrop false [.run { bold := true } [.text S!"x"], c14_emptyRun]
+      (c01_warnState c14_cfgDrop (.paragraph c14_q) S!"paragraph" c14_q.styleId c14_q.styleName {}) =
+    .ok ([.elem (pathElem S!"strong" false) [.text S!"x"],
+          .elem (pathElem S!"strong" false) [.elem (pathElem S!"em" false) [.text []]]], st') := ⟨_, rfl⟩
+example : anyContent [.elem (pathElem S!"strong" false) [.text S!"x"],
+    .elem (pathElem S!"strong" false) [.elem (pathElem S!"em" false) [.text []]]] = true := by decide
+example : ((visit c14_cfgDrop false (.paragraph c14_q [.run { bold := true } [.text S!"x"], c14_emptyRun]) {}).toOption.map
+      fun r => stripEmpty r.1) =
+    some [.elem (pathElem S!"blockquote" false) [.elem (pathElem S!"p" true)
+      [.elem (pathElem S!"strong" false) [.text S!"x"]]]] := by rfl
+/-- the void-path exception is real: an empty paragraph mapped to `hr` is written as `<hr />` -/
+example : ((visit { styleMap := [{ matcher := .paragraph none none none, path := .elements [pathElem S!"hr" false] }] }
+      false (.paragraph {} []) {}).toOption.map fun r => stripEmpty r.1) = some [.elem (pathElem S!"hr" false) []] := by
+  rfl
+/-- KNOWN DESIGN FACT (why `C14_keep_all_paragraphs` is stated before `collapse`): two adjacent empty
+    paragraphs mapped to a NON-fresh element are kept by `strip_empty` but then merged by `collapse` into
+    one element (library: `p => p`, `ignore_empty_paragraphs=False` gives `<p></p>` for two paragraphs). -/
+example : ((convertDoc {
+        styleMap := [{ matcher := .paragraph none none none, path := .elements [pathElem S!"p" false] }],
+        ignoreEmpty := false }
+      { children := [.paragraph {} [], .paragraph {} []] }).toOption.map
+        fun r => (stripEmpty r.nodes, collapse (stripEmpty r.nodes))) =
+    some ([.elem (pathElem S!"p" false) [.forceWrite], .elem (pathElem S!"p" false) [.forceWrite]],
+          [.elem (pathElem S!"p" false) [.forceWrite, .forceWrite]]) := by rfl
+
+/-! ### runs and hyperlinks -/
+
+/-- A run none of whose paths is `!`: its formatting elements (as one path, `c14_tags`, outermost first)
+    around the stripped content of the children if that has content (or there are no nodes at all and the
+    innermost element is void), otherwise nothing: an emptied run disappears with all its wrappers. -/
+theorem C14_run_stripped (cfg : Cfg) (hdr : Bool) (r : RunProps) (cs : List Elem)
+    (st st' : ConvState) (nodes : List Node)
+    (hno : (c01_runPaths cfg r).any HtmlPath.isIgnore = false)
+    (h : visit cfg hdr (.run r cs) st = .ok (nodes, st')) :
+    ∃ content,
+      visitAll cfg hdr cs (c01_warnState cfg (.run r.styleId r.styleName) S!"run" r.styleId r.styleName st)
+        = .ok (content, st') ∧
+      stripEmpty nodes =
+        if (anyContent content || (content.isEmpty && endsVoid (c14_tags (c01_runPaths cfg r)))) = true
+        then wrapElems (c14_tags (c01_runPaths cfg r)) (stripEmpty content) else [] :=
+  c14_run_stripped cfg hdr r cs st st' nodes hno h
+
+/-- a run whose children leave nothing with content disappears -/
+theorem C14_empty_run_dropped (cfg : Cfg) (hdr : Bool) (r : RunProps) (cs : List Elem)
+    (st st' : ConvState) (nodes content : List Node)
+    (hno : (c01_runPaths cfg r).any HtmlPath.isIgnore = false)
+    (h : visit cfg hdr (.run r cs) st = .ok (nodes, st'))
+    (hc : visitAll cfg hdr cs (c01_warnState cfg (.run r.styleId r.styleName) S!"run" r.styleId r.styleName st)
+        = .ok (content, st'))
+    (hempty : anyContent content = false)
+    (hvoid : (content.isEmpty && endsVoid (c14_tags (c01_runPaths cfg r))) = false) :
+    stripEmpty nodes = [] :=
+  c14_empty_run_dropped cfg hdr r cs st st' nodes content hno h hc hempty hvoid
+
+example : (c01_runPaths {} { bold := true, italic := true }).any HtmlPath.isIgnore = false := by decide
+example : c14_tags (c01_runPaths {} { bold := true, italic := true })
+    = [pathElem S!"strong" false, pathElem S!"em" false] := by decide
+example : ∃ st', visit {} false c14_emptyRun {} =
+    .ok ([.elem (pathElem S!"strong" false) [.elem (pathElem S!"em" false) [.text []]]], st') := ⟨_, rfl⟩
+example : ∃ st', visitAll {} false [.text []]
+    (c01_warnState {} (.run none none) S!"run" none none {}) = .ok ([.text []], st') := ⟨_, rfl⟩
+example : anyContent [.text []] = false ∧
+    ([Node.text []].isEmpty && endsVoid (c14_tags (c01_runPaths {} { bold := true, italic := true }))) = false := by
+  decide
+
+/-- A hyperlink: the `a` element around the stripped content if that has content, otherwise nothing. -/
+theorem C14_hyperlink_stripped (cfg : Cfg) (hdr : Bool) (l : LinkProps) (cs : List Elem)
+    (st st' : ConvState) (nodes : List Node)
+    (h : visit cfg hdr (.hyperlink l cs) st = .ok (nodes, st')) :
+    ∃ content, visitAll cfg hdr cs st = .ok (content, st') ∧
+      stripEmpty nodes =
+        if anyContent content = true then [.elem (c14_linkTag cfg l) (stripEmpty content)] else [] :=
+  c14_hyperlink_stripped cfg hdr l cs st st' nodes h
+example : ∃ st', visit {} false (.hyperlink { anchor := some S!"t" } [c14_emptyRun]) {} =
+    .ok ([.elem (c14_linkTag {} { anchor := some S!"t" })
+      [.elem (pathElem S!"strong" false) [.elem (pathElem S!"em" false) [.text []]]]], st') := ⟨_, rfl⟩
+example : ((visit {} false (.hyperlink { anchor := some S!"t" } [c14_emptyRun]) {}).toOption.map
+      fun r => stripEmpty r.1) = some [] := by rfl
+example : ((visit {} false (.hyperlink { anchor := some S!"t" } [c14_emptyRun, .run {} [.tab]]) {}).toOption.map
+      fun r => stripEmpty r.1) = some [.elem (c14_linkTag {} { anchor := some S!"t" }) [.text S!"\t"]] := by rfl
+
+/-! ### whole documents -/
+
+/-- No empty element in the rendered forest of any successfully converted document. -/
+theorem C14_document_no_empty_element (cfg : Cfg) (d : Document) (r : ConvResult)
+    (_h : convertDoc cfg d = .ok r) : allContentL (collapse (stripEmpty r.nodes)) = true :=
+  C14_rendered_no_empty_element r.nodes
+
+/-- The stripped output of a document is, in order, what `strip_empty` leaves of the nodes of each body
+    element (`c14_partRel`: the nodes of a successful visit of that element — so each part is empty iff the
+    element's weight is not `full`, `C14_dropped_iff`), followed by the notes and comments lists. -/
+theorem C14_document_parts (cfg : Cfg) (d : Document) (r : ConvResult) (h : convertDoc cfg d = .ok r) :
+    ∃ parts noteNodes commentNodes,
+      c09_Forall2 (c14_partRel { cfg with comments := d.comments } false) d.children parts ∧
+      r.nodes = parts.flatten ++ [el S!"ol" [] noteNodes, el S!"dl" [] commentNodes] ∧
+      stripEmpty r.nodes =
+        c14_stripParts parts ++ stripEmpty [el S!"ol" [] noteNodes, el S!"dl" [] commentNodes] :=
+  c14_document_parts cfg d r h
+
+/-- The "kept" direction for documents.  If the body consists of paragraphs and tables, each mapped to
+    `!` or to a non-empty path (`c14_isBlock`), then the stripped output starts with exactly one element
+    per block of weight `full` — i.e. per paragraph not mapped to `!` that has content below (or any such
+    paragraph under `ignore_empty_paragraphs=False`) and per table not mapped to `!` — in document order,
+    each carrying the first tag of its block's path (`c14_heads`); nothing else precedes the notes and
+    comments lists. -/
+theorem C14_document_blocks (cfg : Cfg) (d : Document) (r : ConvResult) (h : convertDoc cfg d = .ok r)
+    (hblocks : d.children.all (c14_isBlock { cfg with comments := d.comments }) = true) :
+    ∃ blocks noteNodes commentNodes,
+      stripEmpty r.nodes = blocks ++ stripEmpty [el S!"ol" [] noteNodes, el S!"dl" [] commentNodes] ∧
+      c09_Forall2 c14_hasTag (c14_heads { cfg with comments := d.comments } d.children) blocks :=
+  c14_document_blocks cfg d r h hblocks
+
+/-- … and when those first tags are all fresh (as with the default `p` / `table`), `collapse` merges none
+    of them: the rendered forest, too, has exactly one top-level element per written block, in order. -/
+theorem C14_document_blocks_rendered (cfg : Cfg) (d : Document) (r : ConvResult)
+    (h : convertDoc cfg d = .ok r)
+    (hblocks : d.children.all (c14_isBlock { cfg with comments := d.comments }) = true)
+    (hfresh : (c14_heads { cfg with comments := d.comments } d.children).all (fun t => !t.collapsible) = true) :
+    ∃ blocks noteNodes commentNodes,
+      collapse (stripEmpty r.nodes) =
+        blocks ++ collapse (stripEmpty [el S!"ol" [] noteNodes, el S!"dl" [] commentNodes]) ∧
+      c09_Forall2 c14_hasTag (c14_heads { cfg with comments := d.comments } d.children) blocks :=
+  c14_document_blocks_rendered cfg d r h hblocks hfresh
+
+/-! example: empty paragraph, contentful paragraph, `!`-mapped paragraph, empty table, paragraph with a
+    bookmark only -/
+private def c14_cfgDoc : Cfg := { styleMap := [{ matcher := .paragraph (some S!"X") none none, path := .ignore }] }
+private def c14_doc : Document := { children := [
+  .paragraph {} [c14_emptyRun],
+  .paragraph {} [.run {} [.text S!"a"]],
+  .paragraph { styleId := some S!"X" } [.run {} [.text S!"dropped"]],
+  .table none none [],
+  .paragraph {} [.bookmark (some S!"b")]] }
+example : ∃ r, convertDoc c14_cfgDoc c14_doc = .ok r := ⟨_, rfl⟩
+example : c14_doc.children.all (c14_isBlock { c14_cfgDoc with comments := c14_doc.comments }) = true := by decide
+example : c14_heads { c14_cfgDoc with comments := c14_doc.comments } c14_doc.children
+    = [pathElem S!"p" true, pathElem S!"table" true, pathElem S!"p" true] := by decide
+example : (c14_heads { c14_cfgDoc with comments := c14_doc.comments } c14_doc.children).all
+    (fun t => !t.collapsible) = true := by decide
+example : ((convertDoc c14_cfgDoc c14_doc).toOption.map fun r => collapse (stripEmpty r.nodes)) =
+    some [.elem (pathElem S!"p" true) [.text S!"a"], .elem (pathElem S!"table" true) [.forceWrite],
+          .elem (pathElem S!"p" true) [cel S!"a" [(S!"id", S!"b")] [.forceWrite]]] := by rfl
 
 end Mammoth
